@@ -165,6 +165,11 @@ func Print(e *E) string {
 	case "union":
 		return wrapU(e.A[0]) + ", " + wrapU(e.A[1])
 	case "lit":
+		if e.S == "hex" {
+			if v, err := model.ParseJSON(e.Lit); err == nil && v.K == model.Int && v.I.Sign() >= 0 && v.I.IsInt64() {
+				return fmt.Sprintf("0x%X", v.I.Int64())
+			}
+		}
 		return litText(e.Lit)
 	case "collect":
 		if len(e.A) == 0 {
@@ -244,6 +249,28 @@ func MarkPostfix(e *E, choose func() bool) {
 	if e.Op == "pipe" && len(e.A) == 2 && postfixBase(e.A[0]) {
 		if _, ok := postfixStep(e.A[1]); ok && choose() {
 			e.J = new(int)
+		}
+	}
+}
+
+// MarkHex spells non-negative integer literals in hex where only the value can matter: the operands of the
+// arithmetic operator that produces the final results (yq keeps the spelling of the left operand in its result and
+// compares text in ==, unique, contains, ...; the results themselves are read as JSON numbers).
+func MarkHex(e *E, choose func() bool) {
+	for e != nil && e.Op == "pipe" && len(e.A) == 2 {
+		e = e.A[1]
+	}
+	if e == nil || e.Op != "bin" || len(e.A) != 2 {
+		return
+	}
+	switch e.S {
+	case "+", "-", "*", "/", "%", "<", "<=", ">", ">=":
+	default:
+		return
+	}
+	for _, a := range e.A {
+		if a.Op == "lit" && choose() {
+			a.S = "hex"
 		}
 	}
 }
